@@ -34,7 +34,7 @@ pub fn environment_in_outs(call_num: i32) -> Option<(RegisterSet, RegisterSet)> 
         // 44 => (&[X10], &[]),
         50 => (&[X10], &[X10]),
         54 => (&[X10, X11, X12], &[X11]),
-        55 => (&[X10], &[]),
+        55 => (&[X10, X11], &[]),
         56 => (&[X10, X11], &[]),
         57 => (&[X10], &[]),
         // 58 => (&[X10], &[]),
